@@ -203,7 +203,7 @@ def _cases_of(f):
         return None
     if name not in _CASES:
         p = VERIF / name
-        _CASES[name] = set(p.read_text().split()) if p.exists() else set()
+        _CASES[name] = set(p.read_text().split()) if p.exists() else None     # no list (yet): features + signature only
     return _CASES[name]
 
 
